@@ -565,7 +565,7 @@ func SliceShrinkByIdentity(p *core.Program, r *core.Report, rule string) {
 			// slices.DeleteFunc(field, pred): the predicate compares its element with the given policy
 			if dc := slicesCall(as.Rhs[0], "DeleteFunc"); dc != nil {
 				n++
-				r.Check(mentionsParam(dc.Args[1]), rule, c, p.Pos(as.Pos()), okWhy, badWhy)
+				r.Check(mentionsParam(ResolveLocal(info, fd.Decl.Body, dc.Args[1])), rule, c, p.Pos(as.Pos()), okWhy, badWhy)
 				return
 			}
 			// a shrink: the right-hand side slices the field, or is slices.Delete on it
@@ -615,7 +615,7 @@ func SliceShrinkByIdentity(p *core.Program, r *core.Report, rule string) {
 							return true
 						}
 						if d, _ := defOf(fd, id); d != nil {
-							if ic := slicesCall(d, "Index", "IndexFunc"); ic != nil && mentionsParam(ic.Args[1]) {
+							if ic := slicesCall(d, "Index", "IndexFunc"); ic != nil && mentionsParam(ResolveLocal(info, fd.Decl.Body, ic.Args[1])) {
 								found = true
 							}
 						}
